@@ -215,7 +215,7 @@ inline void on_death() {
     if (f) { fputs(c.c_str(), f); fclose(f); }
 }
 #if defined(__has_feature)
-#if __has_feature(address_sanitizer)
+#if __has_feature(address_sanitizer) || __has_feature(thread_sanitizer)
 #define VF_HAVE_DEATH_CB 1
 extern "C" void __sanitizer_set_death_callback(void (*)(void));
 #endif
@@ -243,8 +243,18 @@ struct Src {
     const uint8_t *p; size_t n, i = 0;
     Src(const uint8_t *p_, size_t n_) : p(p_), n(n_) {}
     explicit Src(const std::vector<uint8_t> &v) : p(v.data()), n(v.size()) {}
+    // expand: once the entropy is used up, continue with a deterministic stream derived
+    // from it (a pure function of the generated value), instead of zeros.  For large
+    // structures (thread workloads) whose size exceeds what the library generates.
+    bool expand = false; uint64_t xs = 0; bool seeded = false;
     bool empty() const { return i >= n; }
-    uint32_t byte() { return i < n ? p[i++] : 0; }
+    uint32_t byte() {
+        if (i < n) return p[i++];
+        if (!expand) return 0;
+        if (!seeded) { xs = hashb(p, n, 0x5eed); seeded = true; }
+        xs += 0x9e3779b97f4a7c15ULL; uint64_t z = xs; z = (z ^ (z >> 30)) * 0xbf58476d1ce4e5b9ULL; z = (z ^ (z >> 27)) * 0x94d049bb133111ebULL; z ^= z >> 31;
+        return (uint32_t) (z & 0xff);
+    }
     uint32_t pick(uint32_t k) {           // 0..k-1
         if (k <= 1) return 0;
         if (k <= 256) return byte() % k;
